@@ -3,6 +3,7 @@ package c15
 
 import (
 	"encoding/json"
+	"fmt"
 	"strings"
 
 	"github.com/runreveal/pql/parser"
@@ -73,6 +74,29 @@ func generate(w *mon.W) {
 		for _, tmpl := range []string{"T%sU", "T | count%s U | count", "let a = 1%slet b = 2; T", "T | where s == 'x%sy'; U", "T | where `c%sd` == 1; U", "T // c%sd\n; U", "%s;%s"} {
 			s := strings.ReplaceAll(tmpl, "%s", ch)
 			w.Do(s, func(r *mon.R) { Check(s, r) })
+		}
+	}
+	// every code point (and the bytes that are not one) in front of a semicolon
+	// inside a comment, a string and a quoted name, and between two statements
+	{
+		var chars []string
+		for c := rune(0); c < rune(w.Pick(0x3100, 0x11000)); c++ {
+			if c >= 0xd800 && c < 0xe000 {
+				continue
+			}
+			chars = append(chars, string(c))
+		}
+		for _, c := range []rune{0xfeff, 0xfffd, 0xfffe, 0xffff, 0x10000, 0x1f600, 0xe0001, 0x10ffff} {
+			chars = append(chars, string(c))
+		}
+		for b := 0x80; b < 0x100; b++ {
+			chars = append(chars, string([]byte{byte(b)}))
+		}
+		for _, ch := range chars {
+			for _, tmpl := range []string{"T // c%s;d\n; U | count", "T | where s == 'x%s;y'; U", "T | where `c%s;d` == 1; U", "T%s;U%s"} {
+				s := strings.ReplaceAll(tmpl, "%s", ch)
+				w.Do(s, func(r *mon.R) { Check(s, r) })
+			}
 		}
 	}
 	// long runs of faulty and of well-formed statements, then one more statement
@@ -190,6 +214,28 @@ func Check(s string, r *mon.R) {
 	if len(parts) != semis+1 {
 		r.Violation("", "SplitStatements(%q) = %q: %d pieces but the lexer reports %d semicolon tokens", s, parts, len(parts), semis)
 		return
+	}
+	// the cuts fall exactly where the language (the reference tokenizer, which
+	// never looks at the implementation) has a semicolon token: not inside a
+	// string, a quoted name or a comment, and at every semicolon outside them
+	{
+		var want []int
+		for _, t := range pqlref.Tokens(s) {
+			if t.Kind == parser.TokenSemi {
+				want = append(want, t.Start)
+			}
+		}
+		var got []int
+		o := 0
+		for _, p := range parts[:len(parts)-1] {
+			o += len(p)
+			got = append(got, o)
+			o++
+		}
+		if fmt.Sprint(want) != fmt.Sprint(got) {
+			r.Violation("", "SplitStatements(%q) = %q cuts at byte offsets %v; the semicolon tokens of the source (outside strings, quoted names and comments) are at %v", s, parts, got, want)
+			return
+		}
 	}
 	off := 0
 	gi := 0
